@@ -370,13 +370,20 @@ pub fn install_quiet_panic_hook() {
 /// Inputs that are rejected at different stages (lexer, argument parsers, grammar, inside open
 /// parentheses) and accepted inputs with misplaced options: parsed before batches of cases so that
 /// state leaking out of earlier calls on the same thread becomes visible.
-pub fn poison_parses(rounds: usize) {
-    const INPUTS: [&str; 18] = [
+pub const POISON_INPUTS: [&str; 18] = [
         "( -true", "( ( -true -o )", "( )", "( -name a ( -uid 1", "-true -name b -bogu", "-uid 5x", "-size 10k%", "-type f5", "-perm u+x,", "-printf 'a'b",
         "-name core -threads 4", "-true -depth", "-name éééééé )", "( -name 日本語", "-true -o", "-fprint", "-name x -o ( -bogus", "-threads 4x",
-    ];
+];
+
+/// Sources of the crate under test (dictionary, snapshots). `/repo/src` unless a development
+/// run points the harness at another checkout.
+pub fn repo_src() -> String {
+    std::env::var("FFV_REPO_SRC").unwrap_or_else(|_| "/repo/src".to_string())
+}
+
+pub fn poison_parses(rounds: usize) {
     for _ in 0..rounds {
-        for i in INPUTS {
+        for i in POISON_INPUTS {
             let _ = catch(|| lipe_find_parser::parse(i).map(|_| ()).map_err(|e| e.to_string()));
         }
     }
